@@ -157,9 +157,10 @@ def published_trans_ok(names):
 
 
 # ---- angle input types ----------------------------------------------------------------------
-INTYPES = ['float', 'deca', 'hpa', 'gona', 'dms', 'ddm', 'dmss', 'ddms', 'dmsa', 'ddma', 'dmsr', 'ddmr']
+INTYPES = ['float', 'deca', 'hpa', 'gona', 'dms', 'ddm', 'dmss', 'ddms', 'dmsa', 'ddma', 'dmsr', 'ddmr', 'dmsp', 'hpac', 'ddmc']
 # dmss / ddms: the object rebuilt from its own text form (DMSAngle(str(o)): tiny seconds print in exponent notation);
 # dmsa / ddma: an object whose public fields were assigned after construction;
+# dmsp: a DMS object after a pickle round trip; hpac / ddmc: deep / shallow copies of HP / DDM objects;
 # dmsr / ddmr: an object RETURNED BY THE LIBRARY (dec2dms / dec2ddm of another angle, used once) whose fields were then assigned
 # other legal forms of a float: numpy float64 scalars (a float subclass) as produced by array indexing / numpy arithmetic
 NUMFORMS = ['np64', 'np0d', 'np32']
@@ -231,6 +232,15 @@ def _as_type(dec, kind):
         o = ga.DDMAngle(12, 34.56789, positive=not src.positive)
         o.degree, o.minute, o.positive = src.degree, src.minute, src.positive
         return o
+    if kind == 'dmsp':
+        import pickle
+        return pickle.loads(pickle.dumps(ga.dec2dms(dec)))
+    if kind == 'hpac':
+        import copy
+        return copy.deepcopy(ga.HPAngle(ga.dec2hp(dec)))
+    if kind == 'ddmc':
+        import copy
+        return copy.copy(ga.dec2ddm(dec))
     if kind == 'dmsr':
         src = ga.dec2dms(dec)
         o = ga.dec2dms(-12.58244138888889 if src.positive else 12.58244138888889)
